@@ -15,7 +15,7 @@ RULE = (
     "True in both directions; far above or structural => False in both directions; never an exception. Non-trivial = mixed-type/structural pair "
     "or a single-component perturbation."
 )
-BUDGET = {"quick": 16 * 2500, "thorough": 16 * 60000}
+BUDGET = {"quick": 16 * 4000, "thorough": 16 * 60000}
 TOLERANCES = {"band": "perturbations are a factor >= 1e3 away from the tolerance on either side, so rounding cannot flip the expected answer"}
 ASSUMPTIONS = ["x.equals(y) is only required for x, y of the same category (pose/pose, vertex/vertex, edge/edge, graph/graph)"]
 
@@ -36,7 +36,7 @@ def strategy_(g):
         case["a"] = g.pose(k, s=s)
         case["ida"] = g.ids(1)[0]
         case["b"] = g.pose(g.kind(), s=s)  # for mixed pairs
-        case["struct"] = g.choice(["id", "type-same-numbers", "type"]) if level == "vertex" else g.choice(["type-same-numbers", "type"])
+        case["struct"] = g.choice(["id", "type-same-numbers", "type", "subclass"]) if level == "vertex" else g.choice(["type-same-numbers", "type", "subclass"])
     elif level == "edge":
         kind = g.choice(["builtin", "builtin", "custom"])
         if kind == "builtin":
@@ -50,9 +50,9 @@ def strategy_(g):
             case["ea"] = {"custom": tag, "base": base, "ids": g.ids(CE.ARITY[tag]), "z": z, "info": g.sym_matrix(n, max_cond=1e2, kind="spd")}
         case["eb"] = E.gen_edge(g, s=s, info_kind="spd", max_cond=1e2)  # for mixed pairs
         case["eb"]["off_id"] = 0
-        case["struct"] = g.choice(["ids", "ids-count", "class", "info-shape", "estimate-type", "offset-type", "offset-id", "estimate-pose-type"])
+        case["struct"] = g.choice(["ids", "ids-count", "class", "subclass", "info-shape", "estimate-type", "offset-type", "offset-id", "estimate-pose-type"])
     else:
-        case["g"] = GG.gen(g, n_pose=(2, 5), n_lm=(0, 2), n_loops=(0, 2), conds=(1.0, 1e2), features=("parallel", "reversed", "permute", "ids", "custom"), custom_flavour="num")
+        case["g"] = GG.gen(g, n_pose=(2, 5), n_lm=(0, 2), n_loops=(0, 2), conds=(1.0, 1e2), features=("parallel", "reversed", "permute", "ids", "custom", "quat-signs"), custom_flavour="num")
         case["struct"] = g.choice(["drop-edge", "add-vertex", "swap-vertices", "swap-edges", "vertex-id", "edge-class"])
     return case
 
@@ -167,6 +167,13 @@ def check(case, ctx):
             y = gs.Vertex(case["ida"] + 1 + sel[1] % 5, gs.mk_pose(case["a"]))
             return _expect(ctx, level, x, y, tol, False, "different id")
         k = case["a"]["k"]
+        if st == "subclass":
+            Sub = type("Derived" + gs.CLS[k].__name__, (gs.CLS[k],), {})
+            base = gs.mk_pose(case["a"])
+            p2 = np.array(base).view(Sub)
+            y = p2 if level == "pose" else gs.Vertex(case["ida"], p2)
+            ctx.event("struct:subclass")
+            return _expect(ctx, level, x, y, tol, False, "%s vs a class derived from it, identical numbers" % k)
         if st == "type-same-numbers" and k in ("se2", "r3"):
             k2 = "r3" if k == "se2" else "se2"
             vals = gs.stored(gs.mk_pose(case["a"]))
@@ -223,6 +230,14 @@ def check(case, ctx):
                 y = gs.EdgeLandmark(list(x.vertex_ids), np.array(x.information), x.estimate.copy(), x.estimate.copy(), offset_id=0)
             else:
                 y = gs.EdgeOdometry(list(x.vertex_ids), np.array(x.information), x.estimate.copy())
+        elif st == "subclass":
+            # an otherwise identical edge whose class is derived from x's class: a different type
+            Sub = type("Derived" + type(x).__name__, (type(x),), {})
+            if isinstance(x, gs.EdgeLandmark):
+                y = Sub(list(x.vertex_ids), np.array(x.information), x.estimate.copy(), x.offset.copy(), offset_id=x.offset_id)
+            else:
+                est = x.estimate.copy() if isinstance(x.estimate, np.ndarray) else x.estimate
+                y = Sub(list(x.vertex_ids), np.array(x.information), est)
         elif st == "info-shape":
             n = np.asarray(y.information).shape[0]
             y.information = np.eye(n + 1)
